@@ -259,7 +259,7 @@ func genC06(master uint64, idx int) *Workload {
 	return w
 }
 
-var c12Modes = []string{"shared-expr-shared-doc", "shared-expr-private-docs", "diff-exprs-one-doc", "compile-same", "compile-diff", "compile-vs-search", "oneshot-mix", "parse-mix", "many-exprs"}
+var c12Modes = []string{"shared-expr-shared-doc", "shared-expr-private-docs", "diff-exprs-one-doc", "compile-same", "compile-diff", "compile-vs-search", "oneshot-mix", "parse-mix", "many-searches", "many-exprs"}
 
 func genC12(master uint64, idx int) *Workload {
 	r := &gen.Rng{S: simrt.Mix(master, uint64(idx))}
@@ -284,8 +284,8 @@ func genC12(master uint64, idx int) *Workload {
 	} else {
 		w.Exprs, d, src = pickExprDoc(r)
 		w.Mode = c12Modes[r.Intn(len(c12Modes))]
-		if w.Mode == "many-exprs" && r.Chance(1, 2) {
-			w.Mode = c12Modes[r.Intn(len(c12Modes)-1)] // long runs: half the weight
+		if (w.Mode == "many-exprs" || w.Mode == "many-searches") && r.Chance(1, 2) {
+			w.Mode = c12Modes[r.Intn(len(c12Modes)-2)] // long runs: half the weight
 		}
 	}
 	_ = src
@@ -362,6 +362,31 @@ func genC12(master uint64, idx int) *Workload {
 			var ops []Op
 			for o := nops(); o > 0; o-- {
 				ops = append(ops, Op{Kind: "oneshot", Expr: r.Intn(len(w.Exprs)), Doc: 0})
+			}
+			w.Clients = append(w.Clients, ops)
+		}
+	case "many-searches":
+		// one shared compiled expression searched hundreds of times by 3-4 clients over a
+		// few documents (call-count thresholds, adaptive paths, counters that wrap)
+		if !compiles(w.Exprs[0]) {
+			w.Mode = "compile-same"
+			w.Docs = []DocSpec{d}
+			break
+		}
+		w.Docs = []DocSpec{d}
+		for i := r.Intn(3); i > 0; i-- {
+			dc := d
+			if d.Kind == "json" && src != "compliance" {
+				dc.Text = gen.Doc(r)
+			}
+			dc.CapSeed = r.Next() | 1
+			w.Docs = append(w.Docs, dc)
+		}
+		nc = 3 + r.Intn(2)
+		for c := 0; c < nc; c++ {
+			var ops []Op
+			for o := 30 + r.Intn(50); o > 0; o-- {
+				ops = append(ops, Op{Kind: "search", Expr: 0, Doc: r.Intn(len(w.Docs))})
 			}
 			w.Clients = append(w.Clients, ops)
 		}
